@@ -1626,7 +1626,8 @@ def setup(ctx, exe=None):
         "not_understood": unk, "notes": table["notes"], "clone_asm": table["clone_asm"],
         "partial_orders_checked_statically": [k for k in table["paths"] if k not in unk],
     }
-    ctx.trusted += ["checks/thread_extract.py (semantic extractor for spawn.rs: inlines the file's helper functions, enumerates paths; its output is re-checked by "
+    ctx.trusted += ["checks/thread_extract.py (semantic, role-based extractor for tiny-std/src/thread.rs + thread/*.rs pooled into one unit: follows calls across the "
+                    "files, identifies private items by what they are, evaluates constants and asm const operands, enumerates paths; its output is re-checked by "
                     "gen_shape_ok / gen_params_from_paths / gen_cfg_good / gen_cas_orderings)",
                     "strace 6.1 (observation and fault injection), the probe's marker system calls and counting allocator wrapper"]
     ctx.assumptions += ASSUMPTIONS
